@@ -70,7 +70,14 @@ class Engine:
 
 class Agent:
     def __init__(self, log, kind, aid, realtime=True):
-        self.log, self.kind, self.simulation_id, self.realtime = log, kind, aid, realtime
+        object.__setattr__(self, "log", log)
+        object.__setattr__(self, "kind", kind)
+        object.__setattr__(self, "simulation_id", aid)
+        object.__setattr__(self, "realtime", realtime)
+
+    def __setattr__(self, k, v):  # any attribute assignment by the code under contract is recorded
+        self.log.append(("agent.setattr", self.simulation_id, k))
+        object.__setattr__(self, k, v)
 
     def updateInfo(self, info):
         self.log.append(("updateInfo", self.simulation_id, info))
